@@ -670,10 +670,11 @@ func runFile(run *hx.Run, jc *jcase, next func(st *genState) *jop) {
 				run.OracleChecked(1)
 				okPw := have && e.pw == pw
 				equiv := have && hmacKey([]byte(pw)) == hmacKey([]byte(e.pw))
-				wantOK := okPw
+				// Service.bak renames to <file>.bak.<unix seconds>: needs 15 more bytes within NAME_MAX
+				wantOK := okPw && len(filepath.Base(slot))+15 <= 255
 				var newKey []byte
 				if op.Kind == "import" {
-					wantOK = okPw && op.BlobValid && op.BlobPw == op.Pw
+					wantOK = wantOK && op.BlobValid && op.BlobPw == op.Pw
 					newKey = unhex(op.BlobKey)
 				} else {
 					newKey = unhex(op.Priv)
@@ -970,6 +971,7 @@ func corpus(r *hx.Rand) []jcase {
 	badIV, _ := craftKind(r, "bad-iv17", key, []byte("pw"))
 	dk0, _ := craftKind(r, "dklen0", key, []byte("pw"))
 	good, _ := craftKind(r, "ok-n2", key, []byte("pw"))
+	goodP, _ := craftKind(r, "ok-n2", key, []byte("p"))
 	return []jcase{
 		// F-keystore-hmac-equivalent-password: "" and "\x00" (known finding)
 		{Store: "file", Ops: []jop{{Kind: "key", Name: hs("n"), Pw: hs("")}, {Kind: "key", Name: hs("n"), Pw: hs("\x00")},
@@ -994,6 +996,12 @@ func corpus(r *hx.Rand) []jcase {
 			{Kind: "exists", Name: hs("s")}, {Kind: "key", Name: hs("a\x00"), Pw: hs("1")}, {Kind: "key", Name: hs(""), Pw: hs("")},
 			{Kind: "exists", Name: hs("")}, {Kind: "key", Name: hs(strings.Repeat("z", 252)), Pw: hs("")},
 			{Kind: "key", Name: hs(strings.Repeat("z", 251)), Pw: hs("")}}},
+		// the backup name <file>.bak.<unix seconds> must fit NAME_MAX: 236+4+15 = 255 fits, 237 does not
+		{Store: "file", Ops: []jop{{Kind: "key", Name: hs(strings.Repeat("y", 236)), Pw: hs("p")}, {Kind: "key", Name: hs(strings.Repeat("y", 237)), Pw: hs("p")},
+			{Kind: "importpriv", Name: hs(strings.Repeat("y", 236)), Pw: hs("p"), Priv: hx.Hex(key)},
+			{Kind: "importpriv", Name: hs(strings.Repeat("y", 237)), Pw: hs("p"), Priv: hx.Hex(key)},
+			{Kind: "import", Name: hs(strings.Repeat("y", 237)), Pw: hs("p"), Blob: hx.Hex(goodP), BlobValid: true, BlobPw: hs("p"), BlobKey: hx.Hex(key), Tag: "ok-n2"},
+			{Kind: "key", Name: hs(strings.Repeat("y", 236)), Pw: hs("p")}, {Kind: "key", Name: hs(strings.Repeat("y", 237)), Pw: hs("p")}}},
 		{Store: "mem", Ops: []jop{{Kind: "key", Name: hs("n"), Pw: hs("")}, {Kind: "key", Name: hs("n"), Pw: hs("\x00")},
 			{Kind: "key", Name: hs("n"), Pw: hs("")}, {Kind: "export", Name: hs("n"), Pw: hs("")}, {Kind: "import", Name: hs("n"), Pw: hs("")},
 			{Kind: "exists", Name: hs("n")}, {Kind: "exists", Name: hs("N")}}},
@@ -1026,10 +1034,10 @@ func main() {
 			runFile(run, &jc, nil)
 		}
 	}
-	nh := run.N(6, 60)
+	nh := run.N(6, 40)
 	for h := 0; h < nh; h++ {
 		rr := r.Fork(uint64(h))
-		n := 6 + rr.Intn(run.N(9, 25))
+		n := 6 + rr.Intn(run.N(9, 20))
 		jc := jcase{Store: "file"}
 		cnt := 0
 		runFile(run, &jc, func(st *genState) *jop {
